@@ -2,6 +2,27 @@
 from e2core import Case, Field, TypeDef
 
 
+def can_inline(ty):
+    """ts-rs documents (by an explicit panic message) that tuples and ranges cannot be inlined."""
+    return "(" not in ty and "Range" not in ty
+
+
+def wrappers(ty):
+    if not can_inline(ty):
+        w = TypeDef("W", "struct", "named", [Field(ty, "f")], derives="#[derive(TS)]", vals=False)
+        return [w], ['ctx.c03::<W>("W");']
+    return wrappers_both(ty)
+
+
+def wrappers_both(ty):
+    """A derived struct with one field of the library type, by name and inlined: its dependencies
+    must be exactly the free names of its declaration (what the exported file would have to import)."""
+    w = TypeDef("W", "struct", "named", [Field(ty, "f")], derives="#[derive(TS)]", vals=False)
+    wi = TypeDef("WI", "struct", "named", [Field(ty, "f", ["#[ts(inline)]"])], derives="#[derive(TS)]", vals=False)
+    return [w, wi], ['ctx.c03::<W>("W");', 'ctx.c03::<WI>("WI");',
+                     'ctx.check_equiv("inline-of-library-type-differs-from-its-name", &|| <W as TS>::inline(), &|| <WI as TS>::inline());']
+
+
 def vcase(kind, ty, vals, deser=True, free=True, deps=None, strings=None):
     """ty: Rust type; vals: Rust expressions; deser: also check witnesses through Deserialize;
     free: witnesses may use arbitrary strings/numbers (no format constraint)."""
@@ -10,9 +31,9 @@ def vcase(kind, ty, vals, deser=True, free=True, deps=None, strings=None):
         body.append(f'ctx.c12_witnesses::<{ty}>({q(ty)});')
     types = []
     if deps is not None:
-        w = TypeDef("W", "struct", "named", [Field(ty, "f")], derives="#[derive(TS)]", vals=False)
-        types.append(w)
+        types, extra = wrappers(ty)
         body.append(f'ctx.c12_deps::<W>({q(ty)}, &[{", ".join(q(d) for d in deps)}]);')
+        body += extra
     return Case({"family": "library", "kind": kind, "type": ty}, types, body, strings=strings)
 
 
@@ -20,9 +41,9 @@ def scase(kind, ty, expect, deps=None):
     body = [f'ctx.c12_shape::<{ty}>({q(ty)}, {q(expect)});']
     types = []
     if deps is not None:
-        w = TypeDef("W", "struct", "named", [Field(ty, "f")], derives="#[derive(TS)]", vals=False)
-        types.append(w)
+        types, extra = wrappers(ty)
         body.append(f'ctx.c12_deps::<W>({q(ty)}, &[{", ".join(q(d) for d in deps)}]);')
+        body += extra
     return Case({"family": "library-shape", "kind": kind, "type": ty}, types, body)
 
 
@@ -56,7 +77,8 @@ def build(tier):
         out.append(vcase("address", f"std::net::{t}", [f'{v}.parse::<std::net::{t}>().unwrap()'], free=False))
     out.append(vcase("unit", "()", ["()"]))
     # ---- unary constructors
-    inner = [("i32", ["1", "-1"], []), ("St", [ST], ["St"]), ("Option<String>", ["None", 'Some("a".to_string())'], []), ("Ue", ["Ue::Aa", "Ue::Bb"], ["Ue"])]
+    inner = [("i32", ["1", "-1"], []), ("St", [ST], ["St"]), ("Option<String>", ["None", 'Some("a".to_string())'], []), ("Ue", ["Ue::Aa", "Ue::Bb"], ["Ue"]),
+             ("Gp<St>", [f"Gp {{ v: {ST}, l: vec![] }}"], ["Gp", "St"])]
     for it, iv, idep in inner:
         out.append(vcase("option", f"Option<{it}>", ["None"] + [f"Some({v})" for v in iv], deps=idep))
         out.append(vcase("vec", f"Vec<{it}>", ["vec![]"] + [f"vec![{v}]" for v in iv] + [f"vec![{iv[0]}, {iv[-1]}]"], deps=idep))
@@ -79,12 +101,20 @@ def build(tier):
     out.append(vcase("set", "HashSet<i32>", ["HashSet::new()", "[1].into_iter().collect()"]))
     out.append(vcase("set", "BTreeSet<String>", ["BTreeSet::new()", '["a".to_string(), "b".to_string()].into_iter().collect()']))
     out.append(vcase("set", "BTreeSet<Ue>", ["[Ue::Aa, Ue::Bb].into_iter().collect()"], deps=["Ue"]))
+    out.append(scase("set", "BTreeSet<Gp<St>>", "Array<Gp<St>>", deps=["Gp", "St"]))
+    out.append(scase("set", "HashSet<Gp<St>>", "Array<Gp<St>>", deps=["Gp", "St"]))
+    out.append(scase("map", "BTreeMap<String, Gp<St>>", "{ [key in string]?: Gp<St> }", deps=["Gp", "St"]))
+    out.append(scase("map", "HashMap<Ue, Gp<St>>", "{ [key in Ue]?: Gp<St> }", deps=["Gp", "St", "Ue"]))
+    out.append(scase("slice", "Box<[Gp<St>]>", "Array<Gp<St>>", deps=["Gp", "St"]))
+    out.append(scase("range", "std::ops::RangeInclusive<Gp<St>>", "{ start: Gp<St>, end: Gp<St>, }", deps=["Gp", "St"]))
+    out.append(scase("array", "[Gp<St>; 64]", "[" + ", ".join(["Gp<St>"] * 64) + "]", deps=["Gp", "St"]))
+    out.append(scase("result", "Result<Gp<St>, Vec<Gp<Ue>>>", "{ Ok : Gp<St> } | { Err : Array<Gp<Ue>> }", deps=["Gp", "St", "Ue"]))
     # ---- arrays of every length
     for n in range(0, 66):
         if n <= 32:
             out.append(vcase("array-length", f"[u8; {n}]", [f"[7u8; {n}]"], deser=(n in (0, 1, 2, 3, 32))))
         expect = "Array<number>" if n > 64 else "[" + ", ".join(["number"] * n) + "]"
-        out.append(scase("array-length", f"[u8; {n}]", expect))
+        out.append(scase("array-length", f"[u8; {n}]", expect, deps=[]))
     out.append(scase("array-length", "[St; 64]", "[" + ", ".join(["St"] * 64) + "]", deps=["St"]))
     out.append(scase("array-length", "[St; 65]", "Array<St>", deps=["St"]))
     out.append(scase("array-length", "[Option<i32>; 66]", "Array<number | null>"))
